@@ -62,6 +62,9 @@ structure St where
   last : Option Pushed := none
   /-- delegates chosen by `last` since it was installed (kept for the fairness monitor) -/
   window : List Del := []
+  /-- superseded pickers (most recently superseded first) with the delegates each has chosen so far: the
+      channel may still be picking on them (RPCs that fetched the picker before the update) -/
+  olds : List (Pushed × List Del) := []
 deriving Repr
 
 def Child.del (c : Child) : Del := if c.hasPicker then .child c.id c.ep else .nilp
@@ -114,6 +117,7 @@ inductive Op
   | close
   | pick (k : Nat)
   | wrappick (start k : Nat)     -- shim: set `next` of the latest picker, then pick k times
+  | pickold (g k : Nat)          -- pick k times on the g-th most recently superseded picker
 deriving Repr
 
 structure Out where
@@ -181,6 +185,20 @@ def doPick (s : St) (start : Option Nat) (k : Nat) : St × Out :=
     let w := match start with | some _ => ds | none => s.window ++ ds
     ({ s with last := some { p with next := n' }, window := w }, { picks := some ds })
 
+/-- the picker list after a new picker is pushed: the current one becomes a superseded one -/
+def retire (s : St) : List (Pushed × List Del) :=
+  match s.last with
+  | some p => (p, s.window) :: s.olds
+  | none => s.olds
+
+/-- `Pick` k times on the g-th most recently superseded picker (it has its own `next`) -/
+def doPickOld (s : St) (g k : Nat) : St × Out :=
+  match s.olds[g]? with
+  | none => (s, { picks := some [] })
+  | some (p, w) =>
+    let r := pickSeq p.pickers p.next k
+    ({ s with olds := s.olds.set g ({ p with next := r.1 }, w ++ r.2) }, { picks := some r.2 })
+
 def setChild (cs : List Child) (id : Nat) (s : ConnState) (pk : Bool) : List Child :=
   cs.map fun c => if c.id = id then { c with state := s, hasPicker := pk } else c
 
@@ -195,7 +213,7 @@ def step (s : St) (op : Op) (oracle : List Del) : St × Out :=
     let p := pushOf a.newEps r oracle
     let gone := s.gone ++ removedClosed
     ({ s with endpoints := a.newEps, gone := gone, inhibit := false, serial := a.serial,
-              last := some p, window := [] },
+              last := some p, window := [], olds := retire s },
      { calls := a.calls ++ closeCalls, async := asyncExit (a.newEps ++ gone) a.idle, err := err, push := some p })
   | .cs id st pk r =>
     let eps := setChild s.endpoints id st pk
@@ -205,20 +223,21 @@ def step (s : St) (op : Op) (oracle : List Del) : St × Out :=
     if s.inhibit then (s1, { async := async })
     else
       let p := pushOf eps r oracle
-      ({ s1 with last := some p, window := [] }, { async := async, push := some p })
+      ({ s1 with last := some p, window := [], olds := retire s }, { async := async, push := some p })
   | .reserr r =>
     let p := pushOf s.endpoints r oracle
-    ({ s with inhibit := false, last := some p, window := [] },
+    ({ s with inhibit := false, last := some p, window := [], olds := retire s },
      { calls := s.endpoints.map (Call.reserr ·.id), push := some p })
   | .exitidle r =>
     let p := pushOf s.endpoints r oracle
-    ({ s with inhibit := false, last := some p, window := [] },
+    ({ s with inhibit := false, last := some p, window := [], olds := retire s },
      { calls := (s.endpoints.filter (!·.closed)).map (Call.exitIdle ·.id), push := some p })
   | .close =>
     let (cl, calls) := closeAll s.endpoints
     ({ s with endpoints := cl, inhibit := true }, { calls := calls })
   | .pick k => doPick s none k
   | .wrappick start k => doPick s (some start) k
+  | .pickold g k => doPickOld s g k
 
 /-- the balancer as built by `NewBalancer(cc, opts, childBuilder, Options{DisableAutoReconnect: b})` -/
 def init (b : Bool) : St := { disableAuto := b }
